@@ -626,6 +626,16 @@ class Tracer:
         # carries atomic facts:  if A and B: X else: Y  ==  if A: (if B: X else: Y) else: Y
         if isinstance(test, ast.UnaryOp) and isinstance(test.op, ast.Not):
             return self._branch(test.operand, orelse, body, p, fi, depth)
+        if isinstance(test, ast.Compare) and len(test.ops) == 1 and isinstance(test.ops[0], (ast.Is, ast.IsNot)) and isinstance(test.comparators[0], ast.Constant) \
+                and test.comparators[0].value in (True, False) and isinstance(test.comparators[0].value, bool):
+            # `B is True` / `B is False` for an expression B that is a bool by construction (a comparison, a negation, isinstance / hasattr
+            # / callable, or a local bound to one): the test is B itself (what desugared `case True, False:` patterns produce)
+            left = self._sub(test.left, p) if isinstance(test.left, ast.Name) and test.left.id in p.env else test.left
+            is_bool = isinstance(left, ast.Compare) or (isinstance(left, ast.UnaryOp) and isinstance(left.op, ast.Not)) or \
+                (isinstance(left, ast.Call) and isinstance(left.func, ast.Name) and left.func.id in ('isinstance', 'hasattr', 'callable', 'issubclass', 'bool'))
+            if is_bool:
+                positive = (test.comparators[0].value is True) == isinstance(test.ops[0], ast.Is)
+                return self._branch(test.left, body, orelse, p, fi, depth) if positive else self._branch(test.left, orelse, body, p, fi, depth)
         if isinstance(test, ast.NamedExpr) and isinstance(test.target, ast.Name) and isinstance(test.value, (ast.BoolOp, ast.UnaryOp, ast.Compare)) \
                 and not any(isinstance(n, (ast.Call, ast.NamedExpr, ast.Await, ast.Yield, ast.YieldFrom)) and not (isinstance(n, ast.Call) and isinstance(n.func, ast.Name) and n.func.id in ('isinstance', 'issubclass', 'callable')) for n in ast.walk(test.value)):
             # if (x := A and B): ...   - the test is decided atom by atom, and x is bound to the (pure) test on both branches
